@@ -6,7 +6,49 @@
 
 let fuel = nat_of_int 300
 
-let parse_words s = if s = "." || s = "" then [] else List.map z_of_string (String.split_on_char ',' s)
+(* ---- round 3: the compact syntax of the scale lines (kind S), see harness/cmd/distincttrace/main.go *)
+(* lists of 10^5 words/operations: no recursion as deep as the list *)
+let map_tr f l = List.rev (List.rev_map f l)
+let mapi_tr f l = let i = ref (-1) in map_tr (fun x -> incr i; f !i x) l
+let append_tr a b = List.rev_append (List.rev a) b
+let u64 s = Int64.of_string ("0u" ^ s)
+let rec i64_of_pos = function M.XH -> 1L | M.XO p -> Int64.shift_left (i64_of_pos p) 1 | M.XI p -> Int64.logor (Int64.shift_left (i64_of_pos p) 1) 1L
+let i64_of_z = function M.Z0 -> 0L | M.Zpos p -> i64_of_pos p | M.Zneg p -> Int64.neg (i64_of_pos p)
+let z_of_u64 (x : int64) =
+  if x = 0L then M.Z0 else
+  let rec go x = if x = 1L then M.XH else
+    let r = go (Int64.shift_right_logical x 1) in if Int64.logand x 1L = 1L then M.XI r else M.XO r in
+  M.Zpos (go x)
+(* the i-th word of the generator g<seed>: splitmix64's output function on a counter *)
+let gen_word (seed : int64) (i : int) : int64 =
+  let ( * ) = Int64.mul and ( + ) = Int64.add and ( ^^ ) = Int64.logxor and ( >> ) = Int64.shift_right_logical in
+  let z = seed * 0x9E3779B97F4A7C15L + (Int64.of_int i + 1L) * 0xD1B54A32D192ED03L in
+  let z = (z ^^ (z >> 30)) * 0xBF58476D1CE4E5B9L in
+  let z = (z ^^ (z >> 27)) * 0x94D049BB133111EBL in
+  z ^^ (z >> 31)
+(* words: decimal items; the last one may be g<seed>:<n> = n generated words *)
+let word_items s = if s = "." || s = "" then [] else String.split_on_char ',' s
+let expand_gen item =
+  match String.split_on_char ':' (String.sub item 1 (String.length item - 1)) with
+  | [seed; n] -> let seed = u64 seed in List.init (int_of_string n) (gen_word seed)
+  | [_] -> []
+  | _ -> failwith "bad word generator"
+(* a decimal word: through Int64 when it is a 64-bit value (fast), else by the arbitrary-size conversion of the glue *)
+let z_of_word it = match Int64.of_string_opt ("0u" ^ it) with Some x -> z_of_u64 x | None -> z_of_string it
+let parse_words s =
+  List.concat_map (fun it -> if it <> "" && it.[0] = 'g' then map_tr z_of_u64 (expand_gen it) else [z_of_word it]) (word_items s)
+let parse_words64 s =
+  List.concat_map (fun it -> if it <> "" && it.[0] = 'g' then expand_gen it else [u64 it]) (word_items s)
+let digest (xs : int list) =
+  let m1 = 2147483647 and p1 = 1000003 and m2 = 2147483629 and p2 = 1000033 in
+  let (h1, h2) = List.fold_left (fun (h1, h2) x ->
+    let a = ((x mod m1) + m1) mod m1 and b = ((x mod m2) + m2) mod m2 in
+    ((h1 * p1 + a) mod m1, (h2 * p2 + b) mod m2)) (7, 7) xs in
+  Printf.sprintf "%08x%08x" h1 h2
+let digest_over = 64
+let show_buf compact (b : int list) =
+  if b = [] then "-" else
+  if compact && List.length b > digest_over then "#" ^ string_of_int (List.length b) ^ ":" ^ digest b else str_ints b
 
 (* op index -> oracle buffer *)
 let parse_oracles s =
@@ -23,13 +65,98 @@ let parse_oracles s =
 
 type pop = PAdd of int | PReset
 
+(* a<v> | r | a<lo>~<hi> (Add lo .. hi-1) | z<seed>~<count>~<U>[~<base>] (count pseudo-random Adds in [base, base+U)) *)
 let parse_ops s =
   if s = "." || s = "" then [] else
-  List.map (fun f -> if f = "r" then PReset else PAdd (int_of_string (String.sub f 1 (String.length f - 1))))
+  List.concat_map (fun f ->
+    if f = "r" then [PReset]
+    else if String.contains f '~' then begin
+      let n = List.map int_of_string (String.split_on_char '~' (String.sub f 1 (String.length f - 1))) in
+      match f.[0], n with
+      | 'a', [lo; hi] when hi - lo <= 1 lsl 22 -> List.init (max 0 (hi - lo)) (fun i -> PAdd (lo + i))
+      | 'z', (seed :: count :: u :: rest) when count <= 1 lsl 22 && u >= 1 && seed >= 0 && List.length rest <= 1 ->
+        let base = (match rest with [b] -> b | _ -> 0) in
+        let x = ref (seed land 0x7FFFFFFF) in
+        List.init (max 0 count) (fun _ -> x := (!x * 1103515245 + 12345) land 0x7FFFFFFF; PAdd (base + (!x lsr 4) mod u))
+      | _ -> failwith "bad op"
+    end
+    else [PAdd (int_of_string (String.sub f 1 (String.length f - 1)))])
     (List.filter (fun x -> x <> "") (String.split_on_char ',' s))
 
+(* ---- records (Len, Count, threshold, words drawn) and their compact form *)
+let lz64 (x : int64) = let rec go i = if i = 64 then 64 else if Int64.logand (Int64.shift_right_logical x (63 - i)) 1L = 1L then i else go (i + 1) in go 0
+let shl_len l j = if j >= 64 then 0L else Int64.shift_left (Int64.of_int l) j
+let full_record (l, c, p, nw) = Printf.sprintf "%d:%Lu:%Lu:%d" l c p nw
+let fmt_records compact recs =
+  if recs = [] then "-" else begin
+    let toks = ref [] and run = Buffer.create 64 in
+    let flush () =
+      if Buffer.length run > 0 then begin
+        let r = Buffer.contents run and b = Buffer.create 64 in
+        Buffer.add_char b '*';
+        let n = String.length r in
+        let i = ref 0 in
+        while !i < n do
+          let j = ref !i in
+          while !j < n && r.[!j] = r.[!i] do incr j done;
+          Buffer.add_char b r.[!i];
+          (match !j - !i with 1 -> () | 2 -> Buffer.add_char b r.[!i] | k -> Buffer.add_string b (string_of_int k));
+          i := !j
+        done;
+        toks := Buffer.contents b :: !toks;
+        Buffer.clear run
+      end in
+    let prev = ref None in
+    List.iter (fun ((l, c, p, nw) as r) ->
+      let compacted =
+        match !prev with
+        | Some (pl, _, pp, _) when compact ->
+          let d = l - pl in
+          if p = pp && (nw = 0 || nw = 1) && d >= -1 && d <= 1 && l >= 0 && c = shl_len l (lz64 p)
+          then (Buffer.add_char run (Char.chr (Char.code 'a' + 2 * (d + 1) + nw)); true) else false
+        | _ -> false in
+      if not compacted then (flush (); toks := full_record r :: !toks);
+      prev := Some r) recs;
+    flush ();
+    String.concat ";" (List.rev !toks)
+  end
+(* the inverse: one record per operation *)
+let decode_records body =
+  if body = "-" || body = "" then [] else begin
+    let out = ref [] in
+    let prev = ref None in
+    List.iter (fun tok ->
+      if tok <> "" && tok.[0] = '*' then begin
+        let n = String.length tok in
+        let i = ref 1 in
+        while !i < n do
+          let ch = tok.[!i] in
+          if ch < 'a' || ch > 'f' then failwith "bad observation";
+          incr i;
+          let j = ref !i in
+          while !j < n && tok.[!j] >= '0' && tok.[!j] <= '9' do incr j done;
+          let k = if !j > !i then int_of_string (String.sub tok !i (!j - !i)) else 1 in
+          i := !j;
+          let code = Char.code ch - Char.code 'a' in
+          for _ = 1 to k do
+            match !prev with
+            | None -> failwith "bad observation"
+            | Some (pl, _, pp, _) ->
+              let l = pl + code / 2 - 1 in
+              let r = (l, shl_len l (lz64 pp), pp, code mod 2) in
+              out := r :: !out; prev := Some r
+          done
+        done
+      end else begin
+        match String.split_on_char ':' tok with
+        | [l; c; p; nw] -> let r = (int_of_string l, u64 c, u64 p, int_of_string nw) in out := r :: !out; prev := Some r
+        | _ -> failwith "bad observation"
+      end) (String.split_on_char ';' body);
+    List.rev !out
+  end
+
 let model_ops ops orc =
-  List.mapi (fun i o -> match o with
+  mapi_tr (fun i o -> match o with
     | PReset -> M.OReset
     | PAdd v -> M.OAdd (z_of_int v, (try Some (Hashtbl.find orc i) with Not_found -> None))) ops
 
@@ -46,6 +173,32 @@ let show (obs, fin) =
     o ^ " B=" ^ (if b = [] then "-" else str_ints b)
   | M.RErr e -> o ^ " ERR=" ^ err_name e
 
+(* scale lines: the same run, one M.step per operation (M.run_obs is this fold, but it measures the
+   words an operation drew as length ws - length ws', which is quadratic in the length of the script;
+   here the cells between ws and ws' are counted).  The model is generic in the element type (a
+   section variable with its equality): the scale lines instantiate it with OCaml's ints instead of
+   Coq's binary Z, which makes a membership test on a buffer of thousands of elements ten times cheaper. *)
+let ieqb (a : int) = let f (b : int) = a = b in f
+let model_ops_int ops orc =
+  mapi_tr (fun i o -> match o with
+    | PReset -> M.OReset
+    | PAdd v -> M.OAdd (v, (try Some (List.map int_of_z (Hashtbl.find orc i)) with Not_found -> None))) ops
+let run_steps single fuel cap words ops =
+  let rec dist a b n = if a == b then n else match a with [] -> n | _ :: t -> dist t b (n + 1) in
+  let rec go s ws ops acc =
+    match ops with
+    | [] -> (List.rev acc, M.ROk (s, ws))
+    | o :: r ->
+      (match M.step ieqb single fuel cap s ws o with
+       | M.ROk (s', ws') -> go s' ws' r ((int_of_z (M.len s'), i64_of_z (M.count s'), i64_of_z s'.M.p, dist ws ws' 0) :: acc)
+       | M.RErr e -> (List.rev acc, M.RErr e)) in
+  go M.init words ops []
+let show_steps (recs, fin) =
+  let o = fmt_records true recs in
+  match fin with
+  | M.ROk (s, _) -> o ^ " B=" ^ show_buf true (List.sort compare s.M.buf)
+  | M.RErr e -> o ^ " ERR=" ^ err_name e
+
 (* the size is a Go int: kept exact (a Z) for the model; for the native spec, which only compares it
    with Len, a size beyond OCaml's 63-bit int is clamped *)
 let cap_of_string s = try int_of_string s with Failure _ -> if String.length s > 0 && s.[0] = '-' then min_int else max_int
@@ -56,6 +209,8 @@ let eval_with single inp =
   match words inp with
   | ["H"; cap; ws; orc; ops] ->
     show (run_model single cap (parse_words ws) (model_ops (parse_ops ops) (parse_oracles orc)))
+  | ["S"; cap; ws; orc; ops] ->
+    show_steps (run_steps single fuel (z_of_string cap) (parse_words ws) (model_ops_int (parse_ops ops) (parse_oracles orc)))
   | _ -> "?"
 
 (* the variant the code currently is comes from Gen (the if/for form of the halving statement) *)
@@ -76,8 +231,6 @@ let eval inp = eval_with M.cvm_single_halving_pass inp
      least n fresh bits for n elements, and only removes elements (the survivors recorded by the
      harness are a subset of the buffer);
    - Len is the size of the reference buffer after every operation and the final dump equals it. *)
-let u64 s = Int64.of_string ("0u" ^ s)
-let lz64 (x : int64) = let rec go i = if i = 64 then 64 else if Int64.logand (Int64.shift_right_logical x (63 - i)) 1L = 1L then i else go (i + 1) in go 0
 let shl1 j = if j >= 64 then 0L else Int64.shift_left 1L j
 let shr x j = if j >= 64 then 0L else Int64.shift_right_logical x j
 let maxu = -1L
@@ -85,12 +238,7 @@ let maxu = -1L
 let out_body out = match String.index_opt out ' ' with Some i -> String.sub out 0 i | None -> out
 let out_tail out = match String.index_opt out ' ' with Some i -> String.sub out (i + 1) (String.length out - i - 1) | None -> ""
 
-let parse_obs out =
-  let body = out_body out in
-  if body = "-" || body = "" then [] else
-  List.map (fun o -> match String.split_on_char ':' o with
-    | [l; c; p; nw] -> (int_of_string l, u64 c, u64 p, int_of_string nw)
-    | _ -> failwith "bad observation") (String.split_on_char ';' body)
+let parse_obs out = decode_records (out_body out)
 
 (* alternating words appended for the repaired-variant run, so that its loop terminates *)
 let ext_words = List.init 4096 (fun i -> z_of_string (if i mod 2 = 0 then "12297829382473034410" else "6148914691236517205"))
@@ -103,12 +251,13 @@ module IS = Set.Make (Int)
 
 let spec prop inp out =
   match prop, words inp with
-  | "C19", ["H"; cap; ws; orc; ops] ->
+  | "C19", [("H" | "S") as kind; cap; ws; orc; ops] ->
+    let compact = kind = "S" in
     let cap_s = cap in
     let cap = cap_of_string cap in
     let ops = parse_ops ops in
     let obs = parse_obs out in
-    let script = Array.of_list (if ws = "." || ws = "" then [] else List.map u64 (String.split_on_char ',' ws)) in
+    let script = Array.of_list (parse_words64 ws) in
     let orc = parse_oracles orc in
     let single = M.cvm_single_halving_pass in     (* the if/for form of the halving statement, from Gen *)
     let seen = Hashtbl.create 16 in
@@ -214,7 +363,7 @@ let spec prop inp out =
       else if n >= 2 && String.sub tail 0 2 = "B=" && List.length obs = List.length ops then begin
         let b = String.sub tail 2 (n - 2) in
         let want = IS.elements !refbuf in
-        if b <> (if want = [] then "-" else str_ints want) then set (List.length obs) "the final buffer is not the reference buffer"
+        if b <> show_buf compact want then set (List.length obs) "the final buffer is not the reference buffer"
       end
     end;
     (* a failure of any other clause is reported first: it is never a known finding *)
@@ -227,10 +376,10 @@ let spec prop inp out =
           Len <= size on the same history *)
        let pinned_ok = M.cvm_single_halving_pass && eval_with true inp = out in
        let repaired_ok =
-         let mops = List.map (function PReset -> M.OReset | PAdd v -> M.OAdd (z_of_int v, None)) ops in
-         let (robs, fin) = run_model ~fuel:big_fuel false cap_s (parse_words ws @ ext_words) mops in
-         (match fin with M.ROk _ -> true | M.RErr _ -> false)
-         && List.for_all (fun (((l, _), _), _) -> int_of_z l <= cap) robs in
+         (* the same fold as M.run_obs, one M.step per operation (run_steps): linear in the 4096 words appended *)
+         let mops = map_tr (function PReset -> M.OReset | PAdd v -> M.OAdd (v, None)) ops in
+         let (robs, fin) = run_steps false big_fuel (z_of_string cap_s) (append_tr (parse_words ws) ext_words) mops in
+         (match fin with M.ROk _ -> true | M.RErr _ -> false) && List.for_all (fun (l, _, _, _) -> l <= cap) robs in
        if pinned_ok && repaired_ok then begin
          (* run_main prints only the first 20 failures of a file: report the known finding a few
             times, count the rest, so that a NEW failure is never crowded out of the report *)
